@@ -49,7 +49,7 @@ PickW(ws) == LET s == Expand(ws) IN s[Pick(1..Len(s))]
 (*  statistics; the exclusion Excluded_F_C01_1 it served is gone since the defect *)
 (*  was repaired)                                                                 *)
 Ctx0 == [rd |-> {"g0", "g1"}, wr |-> {"g0", "g1"}, loc |-> {}, defd |-> {}, labs |-> <<>>, incase |-> FALSE, pure |-> FALSE,
-         fcall |-> TRUE, clos |-> {}, fs |-> FALSE, ret |-> "none", rvar |-> FALSE, dfr |-> FALSE, clob |-> FALSE, top |-> FALSE,
+         fcall |-> TRUE, clos |-> {}, fs |-> FALSE, ret |-> "none", rvar |-> FALSE, dfr |-> FALSE, clob |-> FALSE, top |-> FALSE, lvl0 |-> FALSE,
          litidx |-> FALSE, ptrs |-> {}, sls |-> {}, maps |-> {}, strs |-> {}, gotos |-> <<>>,
          sts |-> {"t"}, qs |-> {}, bools |-> {}, consts |-> {}, clos1 |-> {}, ifs |-> {}, fvs |-> {}, chs |-> {},
          outer |-> [rd |-> {}, clos |-> {}, ptrs |-> {}, sls |-> {}, maps |-> {}, strs |-> {}, sts |-> {}, qs |-> {}, bools |-> {}, clos1 |-> {}, ifs |-> {}, fvs |-> {}, chs |-> {}], d |-> 2]
@@ -162,7 +162,7 @@ GenIface(c) ==
     LET f == PickW(<< <<3, "int">>, <<2, "str">>, <<2, "T">>, <<1, "nil">> >>) IN
     [form |-> f, e |-> IF f = "int" THEN GenE(1, c) ELSE Lit(0), src |-> IF f = "str" THEN GenStr(c) ELSE RandStr(1),
      from |-> IF f = "T" THEN Pick(c.sts) ELSE "t"]
-Inner(c)     == [c EXCEPT !.defd = {}, !.d = c.d - 1]
+Inner(c)     == [c EXCEPT !.defd = {}, !.d = c.d - 1, !.lvl0 = FALSE]
 
 \* body of a function literal of type func() int: its locals are its own
 GenLitBody(c) ==
@@ -264,7 +264,12 @@ GenS(c) ==
         D(x, s) == [s |-> s, c |-> [c EXCEPT !.rd = @ \cup {x}, !.wr = @ \cup {x}, !.loc = @ \cup {x}, !.defd = @ \cup {x}]]
     IN
     CASE k = "asg"   -> S([k |-> "asg", x |-> Pick(c.wr), e |-> GenE(2, c)])
-      [] k = "def"   -> LET x == Pick(FreeNames(c)) IN D(x, [k |-> "def", x |-> x, e |-> GenE(2, c)])
+      \* (one definition in six declares a LOCAL named like the package variable g0: from there to the end of the
+      \* block the name denotes the local; functions and closures made before keep denoting the package variable)
+      \* (not in the statement list of main of a session program: evaluated at the root level such a declaration
+      \* REPLACES the symbol g0 for the whole chunk - known finding F-C11-5, witness main-local-named-like-a-package-variable)
+      [] k = "def"   -> LET x == IF "g0" \notin c.defd /\ ~c.lvl0 /\ Pick(1..6) = 1 THEN "g0" ELSE Pick(FreeNames(c))
+                        IN D(x, [k |-> "def", x |-> x, e |-> GenE(2, c)])
       [] k = "opasg" -> S([k |-> "opasg", x |-> Pick(c.wr), op |-> Pick({"add", "sub"}), e |-> GenE(1, c)])
       [] k = "inc"   -> S([k |-> "inc", x |-> Pick(c.wr), d |-> Pick({1, -1})])
       [] k = "swap"  -> LET x == Pick(c.wr) IN S([k |-> "swap", x |-> x, y |-> Pick(c.wr \ {x})])
@@ -493,7 +498,8 @@ GenProg(z) ==
         \* global scope of an interactive session, where a deferred call has no function to
         \* belong to: none in main's own activation (C11; TLC's CutIndependence finds the
         \* counterexample when this restriction is lifted)
-        cm  == [Ctx0 EXCEPT !.d = 3, !.top = (Profile = "session")]
+        \* (lvl0: the statement list of main itself in a session program, whose statements are evaluated at the root level)
+        cm  == [Ctx0 EXCEPT !.d = 3, !.top = (Profile = "session"), !.lvl0 = (Profile = "session")]
         fsM == Pick(1..3) = 1
         gB  == GenB(Pick(1..3), cg) \o << [k |-> "ret", bare |-> FALSE, e |-> GenE(1, cg)] >>
         rec == IF Pick(1..3) = 1
@@ -629,6 +635,10 @@ Witnesses ==
                              [v |-> 2, w |-> 2, fall |-> FALSE, body |-> << [k |-> "ret", bare |-> TRUE, e |-> Lit(0)] >>] >>,
                 dflt |-> <<>>] >>,
             << PrintS(CallE("f", Lit(1))), [k |-> "printg"] >>),
+      WProg("main-local-named-like-a-package-variable", <<>>,
+            << AsgS("g0", Bin("add", Var("g0"), Lit(4))),
+               [k |-> "def", x |-> "g0", e |-> Bin("add", Var("g0"), Lit(1))],
+               PrintS(Var("g0")), [k |-> "printg"] >>),
       WProg("loop-variable-in-deferred-literal",
             << For2(<<DLit(<<PrintS(Var("i"))>>)>>) >>,
             << PrintS(CallE("f", Lit(1))) >>) }
